@@ -27,7 +27,7 @@ def run(chk):
                        "memoised payloads, read sets of memoising methods, and refresh of state-derived keys of the cached CIF dictionary.")
     chk.rule("R14.1", "memo inventory: attributes stored under a hasattr early return", 4)
     chk.rule("R14.2", "every method that may change cell, space group or asymmetric unit invalidates every memo afterwards", 2)
-    chk.rule("R14.3", "every other method leaves the state fields and the payload of memoised objects untouched", 60)
+    chk.rule("R14.3", "every other method leaves the state fields and the payload of memoised objects untouched", 50)
     chk.rule("R14.4", "memoised values depend only on the three state fields", 4)
     chk.rule("R14.5", "an exported CIF built from the cached dictionary refreshes every state-derived key", 8)
     fx = Effects(repo, ATTR_TYPES)
@@ -184,6 +184,9 @@ def r14_3(chk, cr, fx, methods, writes, mutators, memos):
                 base = t[1] if t and t[0] in ("attr", "sub") else None
                 if base is not None and from_memo(base, memos) and not allowed_payload_store(e.target):
                     bad.append(f"line {e.lineno}: stores into {str(e.target)[:80]}")
+            elif e.kind == "assign" and e.extra.get("aug") and e.extra.get("old") is not None and from_memo(e.extra["old"], memos) \
+                    and e.extra["old"].as_atom() and e.extra["old"].as_atom()[0] in ("sub", "attr"):
+                bad.append(f"line {e.lineno}: in-place {e.extra['aug']} on {str(e.extra['old'])[:80]}")
             elif e.kind == "call" and e.target is not None:
                 c = e.target.as_atom()
                 if c and c[0] == "attr" and from_memo(c[1], memos):
@@ -246,6 +249,10 @@ def r14_4(chk, cr, methods, memos):
                     continue
                 for a in find_atoms(val, lambda a: a[0] == "attr" and a[1].key() == "self"):
                     reads.add(a[2])
+                for a in find_atoms(val, lambda a: a[0] == "call" and call_name(a) == "getattr" and a[2] and a[2][0].key() == "self"):
+                    nm = string_value(a[2][1]) if len(a[2]) > 1 else None
+                    if nm:
+                        reads.add(nm)
         other = sorted(r for r in reads if r not in allowed and r not in cls_names)
         chk.ob("R14.4", CR, f"Crystal.{g}", "the memoised value reads no mutable attribute besides the three state fields",
                not other, node=fn, fingerprint="reads", found=other)
